@@ -46,6 +46,9 @@ func c01Gen(c *vfCtx, emit func(c01Case)) {
 	for _, b := range bodies {
 		emit(c01Case{Family: "A1", Tests: []vfTestExec{{Name: "TestA", Calls: []vfCall{snap(b)}}}})
 	}
+	for _, bl := range vfBoundaryLines() {
+		emit(c01Case{Family: "A-boundary", Tests: []vfTestExec{{Name: "TestA", Calls: []vfCall{snap("head\n" + bl + "\ntail"), snap("a")}}}})
+	}
 	long := strings.Repeat("x", 70000)
 	for _, b := range []string{long, long + "\n", "a\n" + long, long + "\n---\n" + long} {
 		emit(c01Case{Family: "A-long", Tests: []vfTestExec{{Name: "TestA", Calls: []vfCall{snap(b), snap("a")}}}})
